@@ -10,6 +10,8 @@ pub enum Prog {
     Bin(String, Box<Prog>, Box<Prog>), Un(String, Box<Prog>),
     Subs(Box<Prog>, Vec<(String, Prog)>),
     ReFlat(Box<Prog>), ReDeep(Box<Prog>),
+    /// the flat form serialised with serde_json and deserialised again (the model reads it as unparse + parse)
+    SerdeFlat(Box<Prog>),
     /// DeepEx + - * / pow (0..4)
     Arith(usize, Box<Prog>, Box<Prog>), Neg(Box<Prog>),
     /// partial_iter_relaxed(idxs, mode): mode 0 = Error, 1 = PerOperand, 2 = None
@@ -62,6 +64,10 @@ pub fn run(p: &Prog) -> ExResult<Expr> {
             match run(p)? { Expr::F(f) => Expr::F(f.partial_iter_relaxed(idxs.iter().copied(), m)?), Expr::D(d) => Expr::D(d.partial_iter_relaxed(idxs.iter().copied(), m)?) } }
         Prog::ReFlat(p) => { let t = match run(p)? { Expr::F(f) => f.unparse().to_string(), Expr::D(d) => d.unparse().to_string() }; Expr::F(FE::parse(leak(&t))?) }
         Prog::ReDeep(p) => { let t = match run(p)? { Expr::F(f) => f.unparse().to_string(), Expr::D(d) => d.unparse().to_string() }; Expr::D(DE::parse(leak(&t))?) }
+        Prog::SerdeFlat(p) => { let f = match run(p)? { Expr::F(f) => f, Expr::D(d) => FE::from_deepex(d)? };
+            let js = serde_json::to_string(&f).map_err(|e| exmex::ExError::new(&format!("serialize: {e}")))?;
+            let back: FE = serde_json::from_str(leak(&js)).map_err(|e| exmex::ExError::new(&format!("deserialize: {e}")))?;
+            Expr::F(back) }
         Prog::Subs(p, m) => {
             let a = run(p)?;
             let mut reps: Vec<(String, Expr)> = vec![];
@@ -147,6 +153,7 @@ pub fn g_prog(p: &Prog) -> String {
         Prog::Partial(idxs, mode, p) => format!("(PPartial [{}]%nat {mode} {})", idxs.iter().map(|i| i.to_string()).collect::<Vec<_>>().join(";"), g_prog(p)),
         Prog::ReFlat(p) => format!("(PReFlat {})", g_prog(p)),
         Prog::ReDeep(p) => format!("(PReDeep {})", g_prog(p)),
+        Prog::SerdeFlat(p) => format!("(PReFlat {})", g_prog(p)),
         Prog::Subs(p, m) => format!("(PSubs {} [{}])", g_prog(p), m.iter().map(|(x, q)| format!("({}, {})", g_str(x), g_prog(q))).collect::<Vec<_>>().join("; ")),
     }
 }
@@ -183,6 +190,7 @@ pub fn pretty_prog(p: &Prog) -> String {
         Prog::Partial(idxs, mode, p) => format!("{}.partial_iter_relaxed({idxs:?}, mode {mode})", pretty_prog(p)),
         Prog::ReFlat(p) => format!("FlatEx::parse({}.unparse())", pretty_prog(p)),
         Prog::ReDeep(p) => format!("DeepEx::parse({}.unparse())", pretty_prog(p)),
+        Prog::SerdeFlat(p) => format!("serde_json::from_str(serde_json::to_string({}))", pretty_prog(p)),
         Prog::Subs(p, m) => format!("{}.subs({{{}}})", pretty_prog(p), m.iter().map(|(x, q)| format!("{x} -> {}", pretty_prog(q))).collect::<Vec<_>>().join(", ")),
     }
 }
